@@ -858,6 +858,31 @@ theorem clean_race_run (u : USys) (i : Nat) (c : UClient) (g : Nat × Nat → St
   exact ⟨⟨c', l, r, e, hc', hp', hpend, fun k row t hrow hr ht => hpend.premise k row t hrow hr ht⟩,
     (CleanRace.removing_spares i g cutoff v h1).1, (CleanRace.removing_spares i g cutoff v h1).2⟩
 
+/-- **`clean_race_run` for a cleaner that has not begun** (the clients of the driver's `race` op start when first scheduled):
+client `i` is `ServerCleaner.Clean` itself, not started; its first scheduling reads the clock — the cutoff is
+`u.clock − retention` — and scans in the same step.  Same three conclusions. -/
+theorem clean_race_run_lazy (u : USys) (i : Nat) (c : UClient) (g : Nat × Nat → String) (retention : Int)
+    (hc : u.clients[i]? = some c) (hp : c.prog = C13Run.rendered (cleanServers2 retention) g) (hs : c.started = false)
+    (hd : c.dead = false) (hk : Keyed u.abs)
+    (hcl : ∀ (j : Nat) (c' : UClient), j ≠ i → u.clients[j]? = some c' → VerMono.ProgStable c'.prog)
+    (es1 es : List UEv) (hes1 : ∀ e ∈ es1, USysInd.EvOK (C13Run.NotMe i) e) (hes : ∀ e ∈ es, CleanRace.EvC i e)
+    (v : USys) (hv : v = ((((u.step (.call i)).run es1).step (.call i)).run es)) :
+    (∃ (c' : UClient) (l : List Server) (r e : Nat), v.clients[i]? = some c' ∧
+        c'.prog = C13Run.rendered (removeAll (u.clock - retention) l r e) g ∧ CleanRace.Pending (u.clock - retention) l v.abs ∧
+        ∀ (k : Nat) (row : SRow) (t : Int), v.abs.servers[k]? = some row → row.svr.refreshedAt = some t → t > u.clock - retention →
+          ∀ sv ∈ l, sv.addr.key = k → sv.version < row.svr.version) ∧
+    (∀ (k : Nat) (row : SRow) (t : Int), v.abs.servers[k]? = some row → row.svr.refreshedAt = some t → t > u.clock - retention →
+      (v.step (.call i)).abs.servers[k]? = some row) ∧
+    (∀ (c' : UClient) (sv : Server) (rest : List Server) (r e : Nat), v.clients[i]? = some c' →
+      c'.prog = C13Run.rendered (removeAll (u.clock - retention) (sv :: rest) r e) g → c'.started = true → c'.dead = false →
+      ∀ row, v.abs.servers[sv.addr.key]? = some row → row.svr = sv → (v.step (.call i)).abs.servers[sv.addr.key]? = none) := by
+  have h0 := CleanRace.removing_established_lazy i g retention u c hc hp hs hd hk hcl es1 hes1
+  have h1 := CleanRace.removing_run i g (u.clock - retention) es _ hes h0
+  rw [← hv] at h1
+  obtain ⟨c', l, r, e, hc', hp', _, _, hpend⟩ := h1.cleaner
+  exact ⟨⟨c', l, r, e, hc', hp', hpend, fun k row t hrow hr ht => hpend.premise k row t hrow hr ht⟩,
+    (CleanRace.removing_spares i g (u.clock - retention) v h1).1, (CleanRace.removing_spares i g (u.clock - retention) v h1).2⟩
+
 /-- `cleanServers2` is: read the clock, then the program `clean_race_run` starts from -/
 theorem cleanServers2_afterNow (retention : Int) :
     cleanServers2 retention = .call .now fun now => CleanRace.afterNow (now - retention) := rfl
